@@ -69,10 +69,10 @@ def edge_names(rng, a):
 
 class C05(Prop):
     pid = "C05"
-    imports = "From Tola Require Import Py.Base Model.Fragment Model.Fasta Model.AgpTpf Corr.AgpTpf."
+    imports = "From Tola Require Import Py.Base Model.Fragment Model.Fasta Model.AgpTpf Model.AsmFormat Corr.AgpTpf."
     show_fn = "show"
     design_ref = "6/C05"
-    required_theorems = ['C05_parse_format_agp', 'C05_format_parse_agp', 'C05_parse_format_tpf', 'C05_agp_tpf_agp', 'C05_agp_rows_eq_lines', 'C05_tpf_rows_eq_lines', 'C05_gap_type_tables', 'C05_wf_satisfiable']
+    required_theorems = ['C05_parse_format_agp', 'C05_format_parse_agp', 'C05_parse_format_tpf', 'C05_agp_tpf_agp', 'C05_agp_rows_eq_lines', 'C05_tpf_rows_eq_lines', 'C05_gap_type_tables', 'C05_wf_satisfiable', 'C05_asm_format_identity', 'C05_asm_format_concatenates', 'C05_qc_flag_does_not_change_output']
 
     def rule(self):
         return (
@@ -125,14 +125,19 @@ class C05(Prop):
         out = d / f"out.{case['out']}"
         if out.exists():
             out.unlink()
-        r1 = CliRunner().invoke(asm_format.cli, [*paths, "-o", str(out)])
-        r2 = CliRunner().invoke(asm_format.cli, [*paths, "-f", case["out"].upper()])
+        files = list(zip(paths, texts))
+        OUT = case["out"].upper()
+        r1 = T.af_invoke(["-o", str(out)], files, out_name=out.name, out_path=out)
+        wrote = out.exists()
+        r2 = T.af_invoke(["-f", OUT], files, out_fmt=OUT)
         # a diagnostics flag must not change what is written
-        r3 = CliRunner().invoke(asm_format.cli, [*paths, "-f", case["out"].upper(), "--qc-overlaps"])
-        import gc
-        gc.collect()          # the -o handle is never closed by the script: flushed when collected
-        return {"exit": [r1.exit_code, r2.exit_code, r3.exit_code], "file": out.read_text() if out.exists() else None,
-                "stdout": r2.stdout, "stdout with --qc-overlaps": r3.stdout, "inputs": texts}
+        r3 = T.af_invoke(["-f", OUT, "--qc-overlaps"], files, out_fmt=OUT, qc=True)
+        # the first input through STDIN with its format named, and under a given assembly name
+        F0 = case["inputs"][0]["fmt"].upper()
+        r4 = T.af_invoke(["-i", F0, "-f", OUT, "--qc-overlaps", "--name", "given"], stdin=texts[0], in_fmt=F0, out_fmt=OUT,
+                         name="given", qc=True)
+        return {"exit": [r1["exit"], r2["exit"], r3["exit"]], "file": r1["out"] if wrote else None,
+                "stdout": r2["out"], "stdout with --qc-overlaps": r3["out"], "inputs": texts, "invocations": [r1, r2, r3, r4]}
 
     def run_impl(self, case):
         which = case["fmt"]
@@ -161,6 +166,9 @@ class C05(Prop):
                 Ci = "Agp" if inp["fmt"] == "agp" else "Tpf"
                 want = inp["asm"] if inp["fmt"] == "agp" else drop_tags(inp["asm"])
                 ts.append(lambda names, Ci=Ci, text=text, want=want: f"CParse{Ci} {names(text)} {T.opt_asm(want, names)}")
+            # ... and the command as a whole: what it wrote and reported, byte for byte
+            for rec in obs.get("invocations", []):
+                ts.append(lambda names, rec=rec: T.af_term(rec, names))
             return ts
         C = "Agp" if which == "agp" else "Tpf"
         if case["kind"] == "text":
